@@ -12,8 +12,18 @@ from props import register
 def pred_game(rng, kind=None, stratum=None, n=None, maxsize=8):
     kind = kind or rng.choice(KINDS)
     beta, kappa, tau = gen_config(rng)
-    stratum = stratum or rng.choice(["typical", "typical", "wide", "corners", "mismatch", "identical", "equalsize", "tiny-sigma", "equal-ordinal", "near-identical", "zero-sigma", "newcomers"])
-    if stratum == "newcomers":
+    stratum = stratum or rng.choice(["typical", "typical", "wide", "corners", "mismatch", "identical", "equalsize", "tiny-sigma", "equal-ordinal", "near-identical", "zero-sigma", "newcomers", "crushing"])
+    if stratum == "crushing":
+        # large teams of settled players at opposite ends of the range: some pairwise z beyond 38.6, where Phi is exactly 0.0 / 1.0 in
+        # doubles, next to pairs with a real contest
+        n = n or rng.randint(3, 5)
+        sz = rng.randint(5, 8)
+        teams = []
+        for i in range(n):
+            lo, hi = [(15, 20), (-20, -15), (12, 20), (14, 19)][i % 4] if i < 2 or rng.random() < 0.7 else (-20, -14)
+            teams.append([(rng.uniform(lo, hi) * beta, beta * 10 ** rng.uniform(-3, -0.5)) for _ in range(sz)])
+        rng.shuffle(teams)
+    elif stratum == "newcomers":
         # new players hold the model's default rating: equal (mu, sigma) within a team and across teams, next to a few others
         n = n or rng.randint(2, 6)
         sc = beta / core.DEFAULTS["beta"]
